@@ -245,9 +245,9 @@ func runC02(w *fw.Worker) {
 			return
 		}
 		ctxs := [][]pt.Stmt{
-			{pt.InferDecl{Name: "r", X: e}, pt.Print(pt.V("r"), pt.C("typeof", pt.V("r")))},
+			{pt.InferDecl{Name: "r", X: e}, pt.Print(pt.V("r"), pt.C("typeof", pt.V("r"))), pt.Print(pt.S("typeof-var"), pt.C("typeof", pt.V("r")))},
 			{pt.Print(e, pt.C("typeof", e))},
-			{pt.TypedDecl{Name: "r", T: pt.TAny}, pt.Assign{Target: pt.V("r"), X: e}, pt.Print(pt.V("r"), pt.C("typeof", pt.V("r")))},
+			{pt.TypedDecl{Name: "r", T: pt.TAny}, pt.Assign{Target: pt.V("r"), X: e}, pt.Print(pt.V("r"), pt.C("typeof", pt.V("r"))), pt.Print(pt.S("typeof-var"), pt.C("typeof", pt.V("r")))},
 			{pt.If{Conds: []pt.Expr{e}, Blocks: [][]pt.Stmt{{pt.Print(pt.S("t"))}}, Else: []pt.Stmt{pt.Print(pt.S("f"))}}},
 			{pt.For{Var: "i", Range: []pt.Expr{e}, Body: []pt.Stmt{pt.Print(pt.V("i"), pt.C("typeof", pt.V("i")))}}},
 			{pt.Assign{Target: pt.Index{X: pt.V("a"), I: e}, X: pt.N(5)}, pt.Print(pt.V("a"))},
@@ -369,6 +369,13 @@ func checkC02(w *fw.Worker, src string) *fw.Violation {
 	// typeof never reports any / none at top level
 	for _, e := range o.Trace {
 		if !strings.HasPrefix(e, "print:") {
+			continue
+		}
+		// the type of a value held by a variable is concrete down to its leaves: it ends in num, string, bool or any, never in an untyped [] / {}
+		if t, ok := strings.CutPrefix(strings.TrimSpace(e[6:]), "typeof-var "); ok {
+			if strings.HasSuffix(t, "]") || strings.HasSuffix(t, "}") || t == "any" || t == "none" {
+				return &fw.Violation{Sub: "sound", Signature: "typeof-variable-untyped:" + t, What: "a variable holds a value whose type is not concrete (untyped empty composite)", Input: in, Observed: e}
+			}
 			continue
 		}
 		for _, f := range strings.Fields(e[6:]) {
